@@ -20,6 +20,7 @@ import Nitime.Model.Proto
 import Nitime.Generated.Units
 import Nitime.Model.C15Types
 import Nitime.Generated.SeriesCalls
+import Nitime.Generated.FsBindings
 
 namespace Nitime.C15
 open Nitime
@@ -156,6 +157,18 @@ def chain (p : Params) : List (String × Nat) → Series → Except Err Series
       let s' ← outputSeries c.shape s p nOut
       chain p rest s'
 
+/-- the sampling rate (Hz) that reaches the algorithm layer at a site of kind `b`, for input `src` and an
+optional caller-supplied `method['Fs']` -/
+def fsDelivered (b : FsSrc) (src : Series) (user : Option Rat) : Option Rat :=
+  match b with
+  | .inputRate => some src.fs
+  | .userOrInput => some (user.getD src.fs)
+  | .other => none
+
+/-- all generated bindings of one getter (`Class.getter.`) -/
+def bindingsOf (pfx : String) : List FsBinding :=
+  Generated.FsBindings.all.filter (fun b => b.key.startsWith pfx)
+
 /-! ### concatenation and voxel selection (polymorphic in the sample type) -/
 
 /-- `np.concatenate(data, -1)` for a list of (channels × time) blocks with equal channel counts -/
@@ -259,6 +272,21 @@ def handle (args : List String) : String :=
     | some u, some ps =>
       s!"ok {showRatHex (rateOfInterval u ps)} {showRat (rateHz { t0 := 0, dt := ps, n := 1, unit := u })}"
     | _, _ => "bad-op"
+  -- fsdeliver <Class.getter.> <unit> <dt> <fs> <user fs|->: what every Fs site of that getter hands on
+  | ["fsdeliver", pfx, u, dt, fs, user] =>
+    let r : Option String := do
+      let u ← TimeUnit.ofString? u
+      let dt ← dt.toInt?
+      let fs ← parseRatHex? fs
+      let user ← (if user = "-" then some none else (parseRatHex? user).map some)
+      let src : Series := { ax := { t0 := 0, dt := dt, n := 1, unit := u }, fs := fs }
+      let bs := bindingsOf pfx
+      if bs.isEmpty then pure "err no-binding" else
+      let vals := bs.map fun b => fsDelivered b.src src user
+      match vals with
+      | some v :: rest => if rest.all (· == some v) then pure ("ok " ++ showRatHex v) else pure "err mixed"
+      | _ => pure "err not-from-input"
+    r.getD "bad-op"
   -- concat <C> <lens> <dts> <units> <t0s> <data tokens, all blocks row-major>
   | ["concat", c, lens, dts, us, t0s, data] =>
     match c.toNat?, parseNatList? lens, parseIntList? dts, (splitList us).mapM TimeUnit.ofString?, parseIntList? t0s with
